@@ -684,6 +684,15 @@ def r6(tree, rep):
 
 
 def run(tree, rep, tier):
+    # R7: every read re-runs the parser: _Framer.add_and_parse appends the bytes and reaches self.parse() on every path (no state besides the
+    # buffer decides whether to look at it - a frame that is complete in the buffer is always found)
+    ap_ = tree.func(CON, "_Framer", "add_and_parse")
+    g_ = build(ap_)
+    pn_ = g_.call_nodes(lambda c: dotted(c.func) == "self.parse")
+    rep.check("C12.R7", "_Framer.add_and_parse reaches self.parse() on every path", bool(pn_) and g_.must_pass(pn_), site(ap_, CON),
+              key="C12.R7:add_and_parse:always-parses",
+              what="_Framer.add_and_parse can return without running the parser: a frame that is complete in the buffer is withheld until some "
+                   "later read (for ever, if the sender waits for the reply)")
     from .. import sharedstate
     sharedstate.check(tree, rep, "C12.R0")
     r1(tree, rep)
